@@ -10,7 +10,7 @@ import (
 // The C10 table.
 var (
 	c10P = []string{"absent", "unnamed", "named-n", "named-m", "named-base", "metavar", "dot", "blank"}
-	c10F = []string{"no-imports", "other-paths-only", "unnamed", "name-n", "name-k", "name-base", "dot", "blank", "twice-n-then-k", "twice-k-then-n", "twice-unnamed-then-k", "unnamed-raw-string-path", "name-n-raw-string-path"}
+	c10F = []string{"no-imports", "other-paths-only", "unnamed", "name-n", "name-k", "name-base", "dot", "blank", "twice-n-then-k", "twice-k-then-n", "twice-unnamed-then-k", "unnamed-raw-string-path", "name-n-raw-string-path", "unnamed-other-major-version"}
 	// "same-path-named-k": the second guard lists the first path again, under the literal name k (each listing is a guard)
 	c10G2    = []string{"none", "second-holds", "second-fails", "same-path-named-k"}
 	c10Shape = []string{"single", "grouped", "two-blocks"}
@@ -22,7 +22,8 @@ var (
 	// sides of the change are of different kinds (a single expression replaced by several statements)
 	c10Code = []string{"expr", "expr-to-stmts", "stmts", "decl"}
 	// package of the target file: "pk_test" is another package than "pk"
-	c10FPkg = []string{"pk", "pk_test"}
+	// "pk2" is the name a renaming patch gives the package: a file that carries it already is not in package pk
+	c10FPkg = []string{"pk", "pk_test", "pk2"}
 )
 
 type c10Cell struct{ p, f, g2, shape, pkg, pref, code, fpkg int }
@@ -64,8 +65,8 @@ func (c c10Cell) guard1Holds() bool {
 	}
 	var names []string // names under which the file imports path1 ("" = unnamed)
 	switch f {
-	case "no-imports", "other-paths-only":
-		return false
+	case "no-imports", "other-paths-only", "unnamed-other-major-version":
+		return false // path1 + "/v2" is another import path
 	case "unnamed", "unnamed-raw-string-path":
 		names = []string{""}
 	case "name-n", "name-n-raw-string-path":
@@ -269,6 +270,8 @@ func (c c10Cell) file() string {
 	case "twice-unnamed-then-k":
 		add("", c10Path1)
 		add("k", c10Path1)
+	case "unnamed-other-major-version":
+		add("", c10Path1+"/v2")
 	case "unnamed-raw-string-path":
 		raw = true
 		add("", c10Path1)
@@ -333,9 +336,9 @@ func init() {
 	core.Register(&core.Prop{
 		ID:    "C10",
 		Level: "exploration",
-		Rule: "exhaustive table of 119808 cells: patch-side import form {absent, unnamed, named n, named other, named like the last path element, metavariable-named, '.', '_'} x file-side form {no imports, other paths only, unnamed, same name, other name, named like the last path element, '.', '_', " +
-			"same path twice under two names (both orders), unnamed+named, path spelled as a raw string literal (unnamed / named)} x second guard import {none, holds, fails, the first path again under another literal name} x import block shape {single, grouped, two blocks} x package clause {none, matching, non-matching, rename of matching, rename of non-matching, non-matching and spelled like a metavariable of the change} " +
-			"x guard line prefix {context, '-'} x kind of the code pattern {expression, expression replaced by several statements, statement, declaration} x package of the file {pk, pk_test}; when the change applies the package clause must be the file's own (or the renamed one); every cell on a file in which the code pattern occurs; library API for all cells, CLI for every 8th batch. Oracle: the change applies iff every guard holds per the statement's table. " +
+		Rule: "exhaustive table of 193536 cells: patch-side import form {absent, unnamed, named n, named other, named like the last path element, metavariable-named, '.', '_'} x file-side form {no imports, other paths only, unnamed, same name, other name, named like the last path element, '.', '_', " +
+			"same path twice under two names (both orders), unnamed+named, path spelled as a raw string literal (unnamed / named), the path with a '/v2' suffix (another path)} x second guard import {none, holds, fails, the first path again under another literal name} x import block shape {single, grouped, two blocks} x package clause {none, matching, non-matching, rename of matching, rename of non-matching, non-matching and spelled like a metavariable of the change} " +
+			"x guard line prefix {context, '-'} x kind of the code pattern {expression, expression replaced by several statements, statement, declaration} x package of the file {pk, pk_test, pk2 = the name a renaming patch gives it}; when the change applies the package clause must be the file's own (or the renamed one); every cell on a file in which the code pattern occurs; library API for all cells, CLI for every 8th batch. Oracle: the change applies iff every guard holds per the statement's table. " +
 			"Every cell is non-trivial and distinct (one configuration each).",
 		Assumptions: []string{"'in the stated form' for a path imported twice: the guard holds if any of the specs has the stated form", "a file without imports cannot hold a second guard: such cells expect 'not applied'"},
 		Cases:       func(string) int { return (c10Cells() + c10Batch - 1) / c10Batch },
